@@ -55,6 +55,9 @@ def build_session(rng, tmp, nops, metrics):
     iX, iY, iX0, iXF, iXu, iXv, iYv = (s.add(a, nm) for a, nm in ((X, "X"), (Y, "Y"), (X0, "X0"), (XF, "XF"), (Xu, "Xu"), (Xv, "Xv"), (Yv, "Yv")))
     iXg = s.add(Xg, "Xgrid")
     iYv1 = s.add(Yv1, "Yv1")
+    # a float64 distance matrix of exactly n x n that the caller owns and hands to models through the public setter
+    Dm = np.sqrt(((X[:, None, :] - X[None, :, :]) ** 2).sum(-1))
+    iD = s.add(Dm, "D")
     s.seal()
     mats = [iX, iX0, iXF, iXv]
     group = 0
@@ -135,6 +138,25 @@ def build_session(rng, tmp, nops, metrics):
                     s.predict(o, 1, s.pool[Xi][:3].copy(), name="predict-copies")
                 s.predict(o, 1, s.pool[iXv])
                 s.observe(o, 1, "predstate")      # equal data, equal fitted state - whatever was predicted in between
+        elif c < 0.95:
+            # a model on the caller's own pre-computed matrix (no index array): fitting, predicting and asking for the distance
+            # matrix, plain and normalised, leave the matrix as it is
+            kind = rng.choice(["sup", "unsup", "semi"])
+            cfg = {"distance": "euclidean"}
+            if kind == "unsup":
+                cfg.update(min_k=1, max_k=2)
+            o = s.new_model(kind, 997, **cfg)
+            m_ = s.objs[o]["m"]
+            m_.pre_computed_distance = True
+            m_.pre_distances = s.pool[iD]
+            if kind == "semi":
+                m_.pre_distances = s.pool[iD]      # no unlabeled rows in the matrix: fitted with an empty unlabeled set
+                s.fit(o, s.ctr + 2000, s.pool[iX], s.pool[iY], (np.zeros((0, 2)),))
+            else:
+                s.fit(o, s.ctr + 2000, s.pool[iX], s.pool[iY])
+            s.call("get_distances", m_.get_distances, False)
+            s.call("get_distances_normalized", m_.get_distances, True)
+            s.call("get_distances", m_.get_distances, False)
         else:
             # (learn and prune are deliberately not driven here: learn exchanges samples between the caller's training and
             # validation arrays in place BY DESIGN - that exchange is what C17 specifies - so C07's "fitting or predicting
@@ -196,7 +218,7 @@ def run(tier, seed):
                 changed.append(s.names[k])
         rep.violation("API:" + e["op"], clause[0], clause[1].split(":")[0] if clause[0] == "caller_array_modified_by" else e["name"].split(":")[-1],
                       {"event_index": l, "event": {k: v for k, v in e.items() if k != "arr"}, "arrays_changed": changed, "history_prefix": [x["name"] for x in s.ev[max(0, l - 6): l]], "session": meta, "seed": rep.seed})
-    rep.cov["rule"] = "random API histories over a pool of shared arrays (zeros, negative zeros, tiny/huge, float32, C/F order, row views): all 47 metrics, fit/predict of the four models as refit twins (validation labels with and without class 0), get_distances; content id of every pooled array after every call"
+    rep.cov["rule"] = "random API histories over a pool of shared arrays (zeros, negative zeros, tiny/huge, float32, C/F order, row views): all 47 metrics, fit/predict of the four models as refit twins (validation labels with and without class 0), get_distances (plain and normalised, also on a caller-owned pre-computed matrix); content id of every pooled array after every call"
     rep.assumptions = ["TLC", "content interning by SHA-256 (equal id <=> bit-equal)", "integer-dtype arrays are not pooled (a decorated metric would raise on them)"]
     return rep.finish()
 
